@@ -14,6 +14,16 @@ MixedParent(path) ==
                           /\ Bind(SelLists(path), LAMBDA ls :
                                LET n == Level(path, k) IN
                                \E x, y \in 1..Len(ls[n]) : SpComplex(NormAt(ls[n][x], n), PS(ls, n - 1)) # SpComplex(NormAt(ls[n][y], n), PS(ls, n - 1)))
+\* `&` inside the argument of a :not() in a rule nested under a selector LIST
+RECURSIVE AmpInNotC(_, _), AmpInNotFrom(_, _, _)
+AmpInNotC(c, inNot) == (inNot /\ c.amp) \/ \E i \in 1..Len(c.ps) :
+                          c.ps[i].k \in ListPseudos /\ \E j \in 1..Len(c.ps[i].args) :
+                             AmpInNotFrom(c.ps[i].args[j], Len(c.ps[i].args[j]), inNot \/ c.ps[i].k = "not")
+AmpInNotFrom(x, k, inNot) == k > 0 /\ (AmpInNotC(x[k].c, inNot) \/ AmpInNotFrom(x, k - 1, inNot))
+NotAmpUnderList(path) ==
+  \E k \in SelIdx(path) : /\ Level(path, k) >= 2
+                          /\ LET l == SelOf(path[k].s, 2) IN \E i \in 1..Len(l) : AmpInNotFrom(l[i], Len(l[i]), FALSE)
+                          /\ \E j \in SelIdx(path) : j < k /\ Len(SelOf(path[j].s, Level(path, j))) > 1
 \* winners of one environment, only the longhands that have a winner
 Compact(t, U) == [e \in Elems |-> [lh \in {l \in U : t[e][l] # NoWinner} |-> t[e][lh]]]
 CaseOf(id, sh) ==
@@ -31,6 +41,7 @@ CaseOf(id, sh) ==
            \* a rule is nested under a selector list whose members differ in specificity
            \* (expanding such a list instead of using :is() changes the specificity of the nested rule)
            mixed |-> \E a \in 1..Len(sh) : MixedParent(sh[a].path),
+           notamp |-> \E a \in 1..Len(sh) : NotAmpUnderList(sh[a].path),
            envs |-> [k \in 1..Len(envs) |-> [feats |-> envs[k].feats, conds |-> envs[k].conds]],
            win |-> [k \in 1..Len(envs) |-> Bind(WinTable(sh, info, envs[k]), LAMBDA t : Compact(t, U))]])))
 
